@@ -199,6 +199,7 @@ func (w *World) beginIntrusion() Task {
 	t.callKind = 0xfffe
 	t.src = nil
 	t.callSteps = 0
+	t.nextHang = 0
 	t.budget = 50_000_000
 	t.held = 0
 	w.ev(EvUser, 0xfffe, 0)
@@ -208,7 +209,7 @@ func (w *World) beginIntrusion() Task {
 //go:norace
 func (w *World) endIntrusion(saved Task) {
 	t := w.cur
-	t.src, t.callSerial, t.callKind, t.callYields, t.callSteps, t.budget, t.held, t.inCall = saved.src, saved.callSerial, saved.callKind, saved.callYields, saved.callSteps, saved.budget, saved.held, saved.inCall
+	t.src, t.callSerial, t.callKind, t.callYields, t.callSteps, t.budget, t.held, t.inCall, t.nextHang = saved.src, saved.callSerial, saved.callKind, saved.callYields, saved.callSteps, saved.budget, saved.held, saved.inCall, saved.nextHang
 	w.intruding = false
 }
 
@@ -232,11 +233,23 @@ func (p *Pool) put(x any) *byte {
 	if t.held > 0 {
 		t.held--
 	}
-	for i := range p.items {
+	// the double-Put monitor looks at the most recent items only and the free list is capped
+	// (dropping an item is what a GC does): a runaway recursion that is being unwound Puts
+	// millions of states, and a linear scan per Put made that unwinding quadratic
+	lo := len(p.items) - 64
+	if lo < 0 {
+		lo = 0
+	}
+	for i := len(p.items) - 1; i >= lo; i-- {
 		if sameObject(p.items[i].v, x) {
 			w.violate("pool-double-put", "an object was Put into a pool that already holds it")
 			return nil
 		}
+	}
+	if len(p.items) >= 256 {
+		w.Stats.PoolEvicted++
+		w.ev(EvPoolEvict, p.idx, 1)
+		return nil
 	}
 	if w.Cfg.EvictPermille > 0 && !w.intruding && w.choose(2, 1000) < w.Cfg.EvictPermille {
 		w.Stats.PoolEvicted++
